@@ -61,10 +61,12 @@ def observe(bu, isa):
             key=lambda b: (b.address or 0, b.size))
         lin = 0
         row = []
-        for bi in orig:
-            base[id(bi)] = (si, lin)
+        leads = getattr(bu, "leads", None)
+        for ii, bi in enumerate(orig):
+            lead = leads[si][ii] if leads and si < len(leads) else 0
+            base[id(bi)] = (si, lin - lead)
             row.append(bytes(bi.contents))
-            lin += bi.size
+            lin += bi.size - lead
         ob.bytes.append(row)
         ob.iv_order.append(list(orig) + extra)
         for bi in extra:
